@@ -32,7 +32,22 @@ own list of Channel OBJECTS handed out and not closed (get_id() distinct and unc
 seen on the wire (CHANNEL_OPEN sender field): a new id (on the wire) is in 24 bits and in neither set; and data routing: bytes
 the puppet addresses to the id of live channel A come out of A and of no other live channel (after every open, confirmation,
 stray message and data rule).
+
+Third engine ("sch", round 3): ONE real Transport that is never started, under the deterministic scheduler (vlib.sched).  The
+transport-thread task dispatches inbound messages through the transport's own tables (peer CHANNEL_OPEN of every kind the role
+accepts - client: forwarded-tcpip / x11 / auth-agent@openssh.com, i.e. the opens that go straight to one of the transport's
+handlers; server: session / direct-tcpip -, OPEN_CONFIRMATION / OPEN_FAILURE for local opens, peer CLOSE), 1-2 application tasks
+call open_channel() and Channel.close(); pre-state: 0-5 sequential peer opens / peer closes / counter jumps, counter preset
+{0, 5, 2^24-3, 2^24-1}.  Switch points: operations of Transport.lock, of the channel table's lock, of the channels' locks, of the
+events open_channel waits on, the send points and (trace = "alloc" | all) the source lines of the allocation / registration code
+in transport.py.  Schedules: generated preemption lists (<=3 anywhere + <=2 placed at the n-th switch point INSIDE the id
+allocation), and for 10 small programs (one peer open of each kind || one local open, fresh counter / counter moved onto live
+ids) all schedules with <=1 preemption at line level and <=2 at lock level (thorough: <=2 with allocation lines, <=1 with all
+lines).  Oracle on the wire: ids in the sender field of CHANNEL_OPEN / OPEN_CONFIRMATION, in send order, are in 24 bits and not
+in use (an id is released when an operation starts closing its channel or the peer refuses the open); the Channel objects the
+application holds are distinct objects with distinct ids; open_channel returns the id its CHANNEL_OPEN carried.
 """
+import contextlib
 import gc
 import threading
 import time
@@ -52,7 +67,15 @@ RULE = (
     "channels live at an allocation; distinct by the operation list. Second machine (one transport, client|server role, vs a raw puppet peer): rules start local "
     "open (left unanswered, <=3 pending), answer a pending open (confirm/failure, any order), peer open, close local-first/peer-first, counter jump (2^24-1, "
     "2^24-2, onto/below an established id, onto/below the id of an unanswered open), stray OPEN_CONFIRMATION/OPEN_FAILURE for an established or unused id, data "
-    "probe; oracle on the harness' own live Channel objects + wire ids of unanswered opens + data routing (bytes sent to A's id come out of A only)"
+    "probe; oracle on the harness' own live Channel objects + wire ids of unanswered opens + data routing (bytes sent to A's id come out of A only). "
+    "Third family 'sch' (deterministic scheduler, one un-started real Transport, client|server role): pre-state (<=5 of peer open / peer close / counter jump, "
+    "counter from {0,5,2^24-3,2^24-1}) x [transport-thread task: 1-3 of peer CHANNEL_OPEN (client: forwarded-tcpip, x11, auth-agent -> the transport's handlers; "
+    "server: session, direct-tcpip) / answer a local open (confirm|refuse) / peer CLOSE, then answers everything outstanding || 1-2 application tasks: 1-3 of "
+    "open_channel / close] x generated preemption list (<=3 + <=2 aimed inside _next_channel / the table lookup) x switch points {locks, locks + allocation lines, "
+    "locks + all lines of the open/registration code} x open_channel poll {timed, until-set}; plus ALL schedules with <=1 preemption (line level) and <=2 "
+    "(lock level) of 10 programs 'one peer open of kind k || one local open'; oracle: ids on the wire (CHANNEL_OPEN / OPEN_CONFIRMATION sender), in send order, in "
+    "24 bits and not in use + the application's Channel objects distinct; non-trivial there = a task was preempted inside the id allocation, or an allocation "
+    "after a jump/wrap; classes sch:*"
 )
 
 TO = 15.0
@@ -705,14 +728,57 @@ class _ThreadingShim:
     """``threading`` for paramiko.transport while a case runs: Event() gives a cooperative event (open_channel / global_request
     wait on one with a 0.1 s poll), everything else is the real module."""
 
-    def __init__(self, sched):
+    def __init__(self, sched, poll=True):
         self._s = sched
+        self._poll = poll
 
     def __getattr__(self, name):
         return getattr(threading, name)
 
     def Event(self):
-        return self._s.Event("transport-event")
+        ev = self._s.Event("transport-event")
+        if not self._poll:
+            # poll == False: the 0.1 s poll of open_channel never wakes up by itself (such a wake-up only re-checks `active`
+            # and the deadline and waits again); opens then never time out, and an enumeration does not branch on every poll
+            real_wait = ev.wait
+            ev.wait = lambda timeout=None: real_wait(None)
+        return ev
+
+
+class _ChanThreadingShim:
+    """``threading`` for paramiko.channel while a case runs: the locks / conditions / events of the Channels the transport creates
+    are cooperative (Channel._handle_close holds the channel lock across Transport._unlink_channel, a switch point)."""
+
+    def __init__(self, sched):
+        self._s = sched
+        self._n = 0
+
+    def __getattr__(self, name):
+        return getattr(threading, name)
+
+    def Lock(self):
+        self._n += 1
+        return self._s.Lock("chan%d.lock" % self._n)
+
+    def Condition(self, lock=None):
+        return self._s.Condition(lock, "chan%d.cv" % self._n)
+
+    def Event(self):
+        return self._s.Event("chan%d.event" % self._n)
+
+
+@contextlib.contextmanager
+def _sch_patched(bench):
+    import paramiko.channel as PC
+
+    PT = bench.PT
+    saved = PT.threading, PC.threading
+    PT.threading = _ThreadingShim(bench.s, bench.case.get("poll", True))
+    PC.threading = bench.chan_shim
+    try:
+        yield
+    finally:
+        PT.threading, PC.threading = saved
 
 
 class SchBench:
@@ -731,6 +797,7 @@ class SchBench:
         tr = case.get("trace")
         tf = {PT.__file__: (SCH_TRACED_ALLOC if tr == "alloc" else SCH_TRACED)} if tr else None
         self.s = S.Scheduler(strategy, trace_files=tf, max_steps=40000)
+        self.chan_shim = _ChanThreadingShim(self.s)
         self.socks = _socket.socketpair()
         t = self.t = PT.Transport(self.socks[0])
         t.active = True
@@ -826,10 +893,7 @@ class SchBench:
 
     def setup(self):
         t, case = self.t, self.case
-        PT = self.PT
-        PT_threading = PT.threading
-        PT.threading = _ThreadingShim(self.s)
-        try:
+        with _sch_patched(self):
             if self.role == "client":
                 t.request_port_forward("", 0, lambda chan, origin, server: self.handed(chan, "tcp-handler"))
                 # what Channel.request_x11(handler=...) / AgentRequestHandler do on their transport
@@ -839,8 +903,6 @@ class SchBench:
                 t._channel_counter = case["ctr"]
             for op in case["pre"]:
                 self.do_peer(tuple(op), sequential=True)
-        finally:
-            PT.threading = PT_threading
 
     # ------------------------------------------------------------------ operations
     def peer_open_payload(self, kind):
@@ -984,14 +1046,11 @@ class SchBench:
         s.spawn("transport", peer_body)
         for ai, ops in enumerate(case["apps"]):
             s.spawn("app%d" % ai, mk("app%d" % ai, ops))
-        real_threading = PT.threading
-        PT.threading = _ThreadingShim(s)
         self.in_tasks = True
         try:
-            with S.patch_time(s, PT):
+            with _sch_patched(self), S.patch_time(s, PT):
                 res = s.run()
         finally:
-            PT.threading = real_threading
             self.in_tasks = False
         return res
 
@@ -1079,6 +1138,7 @@ def _sch_case(role):
             "apps": st.lists(app, min_size=1, max_size=2),
             "sched": S.schedule_strategy(max_pre=3, max_gap=70, max_forced=8, max_hot=2, hot_range=16),
             "trace": st.sampled_from([False, "alloc", True]),
+            "poll": st.booleans(),
         }
     )
 
@@ -1093,7 +1153,7 @@ def sch_dfs_programs(trace="alloc"):
     for role in ("client", "server"):
         for pk in SCH_PEER_KINDS[role]:
             for pre, ctr in (([], 0), ([["popen", pk], ["popen", pk], ["jump", "live", 0]], MAXID - 1)):
-                progs.append({"fam": "sch", "role": role, "ctr": ctr, "pre": pre, "peer": [["popen", pk]], "apps": [[["open", SCH_LOCAL_KINDS[role][0]]]], "sched": None, "trace": trace})
+                progs.append({"fam": "sch", "role": role, "ctr": ctr, "pre": pre, "peer": [["popen", pk]], "apps": [[["open", SCH_LOCAL_KINDS[role][0]]]], "sched": None, "trace": trace, "poll": False})
     return progs
 
 
@@ -1272,7 +1332,8 @@ def run(ctx):
         sch_run_dfs(ctx, sch_dfs_programs("alloc")[ctx.worker :: ctx.nworkers], 2, 300000, "k2-alloc-lines")
         sch_run_dfs(ctx, sch_dfs_programs(True)[ctx.worker :: ctx.nworkers], 1, 300000, "k1-all-lines")
     else:
-        sch_run_dfs(ctx, sch_dfs_programs("alloc"), 1, 2000, "k1-alloc-lines")
+        sch_run_dfs(ctx, sch_dfs_programs(True), 1, 2000, "k1-all-lines")
+        sch_run_dfs(ctx, sch_dfs_programs(False), 2, 2000, "k2-lock-level")
 
 
 def replay(ctx, case):
